@@ -61,7 +61,7 @@ def scenarios(ck, family, tier):
 def same(obs, exp):
     if exp["res"] == "unsat-or":
         # adversarial overrides: rejected, or (overrides without effect) the canonical value
-        if obs["res"] == "err:CircuitUnsatisfied":
+        if obs["res"] in ("err:CircuitUnsatisfied", "err:InvalidCircuitSize"):
             return True
         return obs["res"] == "ok" and obs["verify"] == "ok" and obs["ret"] == exp["ret"]
     if obs["res"] != exp["res"]:
@@ -73,7 +73,7 @@ def same(obs, exp):
 
 def run_scenarios(ck, sc, site_of=None):
     """layer 3: execute through the public API and compare with the spec's prediction."""
-    inp = "\n".join(json.dumps({"id": s["id"], "ops": s["ops"]}) for s in sc) + "\n"
+    inp = "\n".join(json.dumps({k: s[k] for k in ("id", "ops", "prove_ops") if k in s}) for s in sc) + "\n"
     out = vlib.harness("prog_run", [], stdin=inp, timeout=3000, env={"VERIF_SEED": str(vlib.seed())})
     obs = {e["id"]: e for e in vlib.read_ndjson_text(out)}
     for s in sc:
